@@ -23,6 +23,8 @@ pub struct Scenario {
     /// Worker threads for this scenario (None = default). Scenarios that
     /// observe process-wide state run with one.
     pub threads: Option<usize>,
+    /// Breadth-first reachability to closure instead of depth-first search.
+    pub bfs: bool,
 }
 
 impl Scenario {
@@ -35,6 +37,7 @@ impl Scenario {
             run: Box::new(run),
             setup: None,
             threads: None,
+            bfs: false,
         }
     }
 }
@@ -162,6 +165,7 @@ fn stats_json(s: &Stats) -> Value {
         "distinct_observations_with_deviation": s.nontrivial_observations,
         "violating_executions": s.violations.values().map(|v| v.count).sum::<u64>(),
         "capped": s.capped,
+        "reachability": s.bfs_states.map(|n| json!({"canonical_states": n, "levels": s.bfs_levels, "closure_reached": s.bfs_closed})),
         "wall_s": (s.wall_s * 1000.0).round() / 1000.0,
     })
 }
@@ -208,14 +212,15 @@ pub fn run_check(args: &Args, spec: CheckSpec) -> ! {
         if let Some(s) = &sc.setup {
             s();
         }
-        let st = explorer::explore(&cfg, &sc.run);
+        let st = if sc.bfs { explorer::explore_bfs(&cfg, &sc.run) } else { explorer::explore(&cfg, &sc.run) };
         if std::env::var_os("DPMC_PROGRESS").is_some() {
             eprintln!(
-                "[{}] {}: {} executions, {} states, {} obs, {:.2}s{}{}",
+                "[{}] {}: {} executions, {} states{}, {} obs, {:.2}s{}{}",
                 spec.property,
                 sc.name,
                 st.executions,
                 st.states,
+                st.bfs_states.map(|n| format!(" ({} canonical, {} levels, closure {})", n, st.bfs_levels.unwrap_or(0), st.bfs_closed.unwrap_or(false))).unwrap_or_default(),
                 st.observations,
                 st.wall_s,
                 if st.violations.is_empty() { "" } else { " VIOLATIONS" },
